@@ -31,13 +31,11 @@ Failed(row) == LET h == Hist(row.c) IN
       [] row.kind = "fast"   -> FastFailed(h, Obs(row.o))
 
 \* conformance (drift): the stricter readings and the intermediate observations
-MetaSame(h, o) == Unfold(o.P, FullLabel(ObsHist(o)), o.tip) = Unfold(h.P, FullLabel(h), h.tip)
 Drift(row) == LET h == Hist(row.c) IN
     CASE row.kind = "native" ->
            LET o == Obs(row.o.rt) IN
-           {n \in {"exact", "meta", "gitside", "ref"} :
+           {n \in {"exact", "gitside", "ref"} :
               CASE n = "exact"   -> o.ok /\ LawGitTrees(h, o) /\ ~GitTreesExact(h, o)
-                [] n = "meta"    -> o.ok /\ GitFailed(h, o) = {} /\ ~MetaSame(h, o)
                 [] n = "gitside" -> row.o.git.ok /\ \E r \in 1..Len(row.o.git.T) :
                                         {ObsEntry(row.o.git.T[r][i]) : i \in DOMAIN row.o.git.T[r]} # Carried(h.T[r])
                 [] n = "ref"     -> row.o.sha.ok /\ row.o.ref # row.o.sha.scratch}
